@@ -21,12 +21,13 @@ BLOCK_PARSERS = {'parse_if': ('OP_IF', 'END_IF'), 'parse_else': (None, 'END_IF')
 # ---------------------------------------------------------------------------
 
 class _Part:
-    def __init__(self, kind, width=None, var=None, value=None, txt=''):
+    def __init__(self, kind, width=None, var=None, value=None, txt='', maxlen=None):
         self.kind = kind      # fixed prefix var unknown
         self.width = width
         self.var = var
         self.value = value
         self.txt = txt
+        self.maxlen = maxlen  # prefix parts: upper bound on the payload length established by guards on this path
 
     def __repr__(self):
         return f'{self.kind}:{self.width}:{self.var}'
@@ -206,9 +207,30 @@ class _Derive:
         if isinstance(test, ast.UnaryOp) and isinstance(test.op, ast.Not):
             self._learn(test.operand, st, not truth)
             return
+        if isinstance(test, ast.Compare) and len(test.ops) > 1 and truth:
+            # a <= x < b : each link holds
+            terms = [test.left] + list(test.comparators)
+            for i, o in enumerate(test.ops):
+                self._learn(ast.Compare(left=terms[i], ops=[o], comparators=[terms[i + 1]]), st, True)
+            return
         if isinstance(test, ast.Compare) and len(test.ops) == 1:
             op = test.ops[0]
             a, b = test.left, test.comparators[0]
+            # integer bounds of a plain variable: lo <= x, x <= hi (either way round)
+            def _ival(e):
+                if isinstance(e, ast.Constant) and isinstance(e.value, int) and not isinstance(e.value, bool):
+                    return e.value
+                if isinstance(e, ast.UnaryOp) and isinstance(e.op, ast.USub) and isinstance(e.operand, ast.Constant) and \
+                        isinstance(e.operand.value, int):
+                    return -e.operand.value
+                return None
+            if truth:
+                if isinstance(b, ast.Name) and _ival(a) is not None and isinstance(op, (ast.LtE, ast.Lt)):
+                    st['facts']['>=' + b.id] = _ival(a) + (1 if isinstance(op, ast.Lt) else 0)
+                if isinstance(a, ast.Name) and _ival(b) is not None and isinstance(op, (ast.GtE, ast.Gt)):
+                    st['facts']['>=' + a.id] = _ival(b) + (1 if isinstance(op, ast.Gt) else 0)
+                if isinstance(b, ast.Name) and _ival(a) is not None and isinstance(op, (ast.GtE, ast.Gt)):
+                    st['facts']['<=' + b.id] = _ival(a) - (1 if isinstance(op, ast.Gt) else 0)
             if isinstance(op, ast.In) and truth and isinstance(b, (ast.Tuple, ast.List, ast.Set)) and \
                     all(isinstance(e, ast.Constant) for e in b.elts):
                 st['facts']['in:' + ast.unparse(a)] = tuple(e.value for e in b.elts)
@@ -238,6 +260,12 @@ class _Derive:
     def _static_len(self, e, st):
         if isinstance(e, ast.Constant) and isinstance(e.value, bytes):
             return len(e.value)
+        # the signed codec gives exactly one byte for [-128, 127]
+        if isinstance(e, ast.Call) and dotted(e.func) == 'int_to_bytes' and len(e.args) == 1 and isinstance(e.args[0], ast.Name):
+            lo = st['facts'].get('>=' + e.args[0].id)
+            hi = st['facts'].get('<=' + e.args[0].id)
+            if lo is not None and hi is not None and -128 <= lo and hi <= 127:
+                return 1
         if isinstance(e, ast.Call) and dotted(e.func) == 'struct.pack' and e.args and \
                 isinstance(e.args[0], ast.Constant):
             import struct
@@ -324,7 +352,8 @@ class _Derive:
             if order != 'big' or signed:
                 return [_Part('unknown', txt='non-big-endian or signed length prefix')]
             if isinstance(recv, ast.Call) and dotted(recv.func) == 'len' and recv.args:
-                return [_Part('prefix', width=k, var=ast.unparse(recv.args[0]))]
+                v = ast.unparse(recv.args[0])
+                return [_Part('prefix', width=k, var=v, maxlen=st['facts'].get(f'<=len({v})'))]
             if isinstance(recv, ast.Constant) and isinstance(recv.value, int):
                 return [_Part('prefix', width=k, value=recv.value)]
             return [_Part('fixed', width=k)]
@@ -384,11 +413,26 @@ def helper_shapes(w: World, helper: str) -> tuple[set, list]:
                     break
             else:
                 ok = False
+                problems.append(f'the byte length of the emitted part `{p.var or p.txt or p.kind}` is not established on a path '
+                                f'(no length guard / length prefix): the VM reads a fixed number of bytes, a longer encoding '
+                                f'is silently mis-assembled')
                 break
         if ok:
             shapes.add(tuple(toks))
         # paths whose payload is not provably bytes raise at join: ignored, not flagged
     return shapes, problems
+
+
+def helper_prefix_bounds(w: World, helper: str) -> list[tuple[int, int | None]]:
+    """(prefix width, upper bound on the payload length that guards establish) for every length-prefixed
+    part an encoder helper emits, over all its non-raising paths."""
+    fi = w.repo.func('parsing', helper)
+    out = []
+    for parts in _Derive(w, fi).run():
+        for p in parts:
+            if p.kind == 'prefix' and p.var is not None:
+                out.append((p.width, p.maxlen))
+    return out
 
 
 # ---------------------------------------------------------------------------
